@@ -33,6 +33,7 @@ mutual
     | "R" :: r => do let (t, r) ← pOp r; pure (.root t, r)
     | "L" :: r => do let (t, r) ← pOp r; pure (.lowRankRoot t, r)
     | "H" :: r => do let (t, r) ← pOp r; pure (.chol t, r)
+    | "HU" :: r => do let (t, r) ← pOp r; pure (.cholU t, r)
     | "K" :: r => do let (a, r) ← pOp r; let (b, r) ← pOp r; pure (.kron a b, r)
     | "KT" :: r => do let (a, r) ← pOp r; let (b, r) ← pOp r; pure (.kronTri a b, r)
     | "KD" :: r => do let (a, r) ← pOp r; let (b, r) ← pOp r; pure (.kronDiag a b, r)
